@@ -1055,7 +1055,7 @@ class HttpPayloadParser:
 
                         if not re.fullmatch(HEXDIGITS, size_b):
                             exc = TransferEncodingError(
-                                chunk[:pos].decode("ascii", "surrogateescape")
+                                chunk[:pos].decode("latin1")
                             )
                             set_exception(self.payload, exc)
                             raise exc
